@@ -140,6 +140,11 @@ var valuePool = [][]byte{
 	[]byte("181"), []byte("-181"), []byte("86"), []byte("-86"), []byte("90"), []byte("1e308"), []byte("-1e308"), []byte("4.9e-324"), []byte("1e-400"),
 	[]byte("where"), []byte("$"), []byte("*"), []byte("[*"), []byte("a[0]"), []byte("a.b"), []byte("{"), []byte(`{"x":1}`), []byte(`"s"`), []byte("[1,2]"), []byte("null"),
 	[]byte("m1"), []byte("f1"), []byte("v1"), []byte("Palermo"),
+	// texts the apply path matches error messages against (node/state_machine.go isUnrecoveryError): an
+	// error that quotes a client argument must never be classified by the argument's text
+	[]byte("IO error: No space left on device"), []byte("io error: no space left on device"), []byte("No space left on device"),
+	[]byte("NO SPACE LEFT ON DEVICE"), []byte("xx IO error: No space left on device yy"), []byte("1 IO error: No space left on device"),
+	[]byte("IO error: No space left on device 1"), []byte("IO error"), []byte("the batch size exceed the limit"),
 }
 
 // keyPool: adversarial key shapes (with and without namespace / table)
@@ -295,6 +300,42 @@ func genVector(r *hx.Rng, names []string) vector {
 		muts = []string{"valid"}
 	}
 	return vector{args: v, base: name, mut: strings.Join(muts, "+")}
+}
+
+// matchedTexts: the literal texts the apply path compares error messages with, and variants of them
+var matchedTexts = [][]byte{
+	[]byte("IO error: No space left on device"), []byte("io error: no space left on device"),
+	[]byte("xx IO error: No space left on device yy"),
+}
+
+// dictionarySweep: every template of every registered command with each matched text in each argument
+// position after the command name (deterministic, independent of the seed)
+func dictionarySweep(names []string) []vector {
+	var out []vector
+	for _, n := range names {
+		tp := templates[n]
+		if len(tp) == 0 {
+			tp = genericTemplates(n)
+		}
+		for _, t := range tp {
+			for i := 1; i < len(t); i++ {
+				for k, txt := range matchedTexts {
+					if i == 1 && k > 0 {
+						continue // one text in the key position is enough
+					}
+					v := clone(bb(t))
+					if i == 1 {
+						// keep the command routable: the text goes behind the namespace and table
+						v[i] = append([]byte("vns:t:"), txt...)
+					} else {
+						v[i] = append([]byte{}, txt...)
+					}
+					out = append(out, vector{args: v, base: n, mut: "dict"})
+				}
+			}
+		}
+	}
+	return out
 }
 
 // bigVectors: argument counts around MAX_BATCH_NUM (built rarely: they are large)
